@@ -130,6 +130,18 @@ class Ctx:
                 rep = None
                 payload["replay_error"] = f"{type(e).__name__}: {e}"
         wclass = ""
+        if ob.meta.get("havoc") and not (rep is not None and rep[0] is True):
+            # the failing path runs through a call the engine has no contract for (its effect is unknown to the proof):
+            # a tool limit, not evidence against the code - undecided unless a replayed input fails natively
+            self.undecided.append({"obligation": ob.name, "reason": "path passes through uncontracted call(s) "
+                                   + "; ".join(map(str, ob.meta["havoc"]))[:200]})
+            return
+        if rep is not None and rep[0] == "undecided":
+            # the solver's model depends on an abstraction (uninterpreted function, over-approximated exception) and
+            # does not fail natively: neither a violation nor an engine fault - reported as undecided
+            self.undecided.append({"obligation": ob.name, "reason": "model through an abstraction does not reproduce: "
+                                   + str(rep[1])[:200]})
+            return
         if rep is not None:
             reproduced, detail, inp = rep
             payload["replay"] = {"reproduced": reproduced, "detail": detail, "input": inp}
